@@ -47,6 +47,9 @@ type c15Params struct {
 	Exchanges [][]c15Exchange `json:"exchanges"`       // per client
 	Fault     string          `json:"fault,omitempty"` // refuse | close-mid-reply
 	SSH       []c15SSHClient  `json:"ssh,omitempty"`
+	// seeded yields at the relay goroutines' blocking points (read by the world, see RunScenario)
+	YieldPct    int `json:"yield_pct,omitempty"`
+	YieldRounds int `json:"yield_rounds,omitempty"`
 }
 
 func c15Config(p *c15Params) string {
